@@ -76,6 +76,10 @@ def choose_plan(rng, code, cls, distinct=True):
     p = {"code": code, "insize": insize, "chunk": chunk, "dirs": dirs, "rgb": rgb, "pixel": pixel,
          "ext": ext, "out_dtype": out_dtype, "flat": rng.random() < 0.4, "gzip": rng.random() < 0.6,
          "cls": cls, "mode": "inprocess"}
+    if nsl >= 2 and rng.random() < 0.25:
+        # empty (all-black) slices: all but one, so that whole chunks hold only zeros
+        keep = rng.randrange(nsl)
+        p["blank"] = [0 if k == keep else 1 for k in range(nsl)]
     return p
 
 
